@@ -1244,3 +1244,32 @@ func (cx *Ctx) followDelegation(fn *ssa.Function) *ssa.Function {
 	}
 	return fn
 }
+
+// nilTestReturned: the outcome of comparing e (or an alias) with nil is a result of the function (`return err != nil`).
+func (fx *Facts) nilTestReturned(e ssa.Value) bool {
+	for _, a := range fx.aliasesOf(e) {
+		for _, ref := range nonDebugRefs(a) {
+			b, ok := ref.(*ssa.BinOp)
+			if !ok {
+				continue
+			}
+			if x, _, isNT := nilTest(b); !isNT || x != a {
+				continue
+			}
+			conds := []ssa.Value{b}
+			for i := 0; i < len(conds); i++ {
+				for _, r2 := range nonDebugRefs(conds[i]) {
+					switch y := r2.(type) {
+					case *ssa.UnOp:
+						if y.Op == token.NOT {
+							conds = append(conds, y)
+						}
+					case *ssa.Return:
+						return true
+					}
+				}
+			}
+		}
+	}
+	return false
+}
